@@ -96,10 +96,14 @@ func TestCheck(t *testing.T) {
 		spec3 := []pbkvs.Req{{Type: "put", Key: "KEY1", Value: "VALUE1"}, {Type: "put", Key: "KEY1", Value: "VALUE2"}, {Type: "get", Key: "KEY1"}}
 		cfgs := []runCfg{
 			{pbkvs.Config{NumReplicas: 2, NumClients: 1, ExploreFail: true, Input: spec3}, 0, "2rep-1cli-fail"},
-			{pbkvs.Config{NumReplicas: 2, NumClients: 2, ExploreFail: true, Input: spec3}, 0, "2rep-2cli-fail"},
+			// fail-over followed by a second put needs 3 replicas and the spec's put,put,get input
+			{pbkvs.Config{NumReplicas: 3, NumClients: 1, ExploreFail: true, Input: spec3}, 0, "3rep-1cli-fail"},
+			// primary crashing mid-replication needs 3 replicas; a second client's get racing with the retried put needs 2 clients
+			{pbkvs.Config{NumReplicas: 3, NumClients: 2, ExploreFail: true, Input: spec3[1:]}, 0, "3rep-2cli-put-get-fail"},
 		}
 		if env.Thorough() {
 			cfgs = append(cfgs,
+				runCfg{pbkvs.Config{NumReplicas: 2, NumClients: 2, ExploreFail: true, Input: spec3}, 0, "2rep-2cli-fail"},
 				runCfg{pbkvs.Config{NumReplicas: 3, NumClients: 2, ExploreFail: true, Input: spec3}, 0, "3rep-2cli-fail"},
 				runCfg{pbkvs.Config{NumReplicas: 4, NumClients: 1, ExploreFail: true, Input: spec3}, 0, "4rep-1cli-fail"},
 				runCfg{pbkvs.Config{NumReplicas: 3, NumClients: 3, ExploreFail: true, Input: append(append([]pbkvs.Req{}, spec3...), pbkvs.Req{Type: "get", Key: "KEY1"})}, 0, "3rep-3cli-fail"})
@@ -110,13 +114,18 @@ func TestCheck(t *testing.T) {
 				t.Fatal(err)
 			}
 		}
-		share := time.Until(env.Deadline) / time.Duration(len(cfgs)+1)
+		var share time.Duration
 		var states, trans, validated int64
 		exhaustive := true
 		per := []any{}
 		seen := map[string]bool{}
 		var samples []any
-		for _, cfg := range cfgs {
+		for ci, cfg := range cfgs {
+			// every instance gets an equal share of what is left (early finishers leave their time to the rest)
+			share = time.Until(env.Deadline) * 8 / 10 / time.Duration(len(cfgs)-ci)
+			if share < 5*time.Second {
+				share = 5 * time.Second
+			}
 			sys := pbkvs.New(cfg.Config)
 			sys.Observe = pbkvs.ObserveHistory
 			r := sys.BFS(ss.BFSOptions{Workers: env.Workers, Deadline: time.Now().Add(share), Constraint: cfg.Constraint, MaxDev: cfg.MaxDev,
@@ -128,8 +137,12 @@ func TestCheck(t *testing.T) {
 			trans += r.Transitions
 			exhaustive = exhaustive && r.Exhaustive
 			nConf := 0
+			confCap, confDeadline := 1000, time.Now().Add(share/5)
+			if env.Thorough() {
+				confCap *= 20
+			}
 			for _, leaf := range r.Leaves {
-				if nConf >= 1000 {
+				if nConf >= confCap || time.Now().After(confDeadline) {
 					break
 				}
 				path := r.PathTo(leaf)
